@@ -95,6 +95,9 @@ class prepend_expansion_view:
         yield "length-grows-by-the-run", total(new) == L + r
         yield "new-positions-carry-the-attribute", forall(0, r, lambda p: aeq(at(new, p), at_))
         yield "old-positions-move-right-with-their-attribute", forall(0, L, lambda p: aeq(at(new, r + p), at(old, p)))
+        # the same fact read from the new list's side (a caller that asks about position q of the new list finds it by
+        # matching at(new, q), without arithmetic inside the pattern)
+        yield "positions-after-the-new-run-come-from-the-old-list", forall(r, r + L, lambda q: aeq(at(new, q), at(old, q - r)))
 
 
 @contract(UT + "rle_append_modify", property=("C17", "C02"), alias="expansion-view", replayable=False)
@@ -120,7 +123,15 @@ def _cut(a):
     return calc_trim_text_bytes.spec_value(None, text=t, start_offs=0, end_offs=tlen(t), start_col=a.start_col, end_col=a.end_col)
 
 
-@contract(UT + "trim_text_attr_cs", property=("C17", "C02", "C03"), globals_=ENC, replayable=False,
+def _single_run_witness(st):
+    """Witness scenario for the vacuity guards (pyvc.engine.State.cover; `pc AND witness` satisfiable implies `pc`
+    satisfiable): one attribute for the whole row and one charset."""
+    a = st.ex.inputs or {}
+    out = [R.n_runs(a[k]) == 1 for k in ("attr", "cs") if k in a]
+    return [c for c in out if not isinstance(c, bool)]
+
+
+@contract(UT + "trim_text_attr_cs", property=("C17", "C02", "C03"), globals_=ENC, replayable=False, branch_timeout_ms=R.QBT, cover_witness=_single_run_witness,
           contract_overrides={UT + "calc_trim_text": calc_trim_text_bytes, UT + "rle_prepend_modify": prepend_expansion_view, UT + "rle_append_modify": append_expansion_view})
 class trim_text_attr_cs:
     """Precondition (TextCanvas.content, the only caller): the two run lists describe exactly the bytes of the row
